@@ -4,9 +4,9 @@
 
   Proved here: boolean schemas round-trip; the emitted object never repeats a key; Extra round-trips;
   the table obligations over the generated struct description.  The scalar fragment of the full round
-  trip is `roundtrip_scalar_fragment`; the round trip of whole schema trees (all subschema-valued keywords
-  but the draft-07 `dependencies` union) is `roundtrip_tree` (helper lemmas: JSV/Proofs/MshTree.lean);
-  what is missing for the full statement is listed after it.
+  trip is `roundtrip_scalar_fragment`; the round trip of whole schema trees (every keyword; no nil child) is
+  `roundtrip_tree` (helper lemmas: JSV/Proofs/MshTree.lean); what is missing for the full statement is listed
+  after it.
 -/
 import JSV.Proofs.MshRound
 import JSV.Proofs.MshScalar
@@ -218,14 +218,16 @@ example (mrec : Go.MRec) (urec : Go.URec) :
     dependencySchemas) — is finite and acyclic (at most `st.size` deep), has no nil child, and every node of it
     satisfies `Go.nodeOK` and `Go.nodeOrd`:
     * MarshalJSON's own checks pass (not both `type` and `types`, not both `$defs` and `definitions`, not both `items`
-      and `itemsArray`, no duplicate in PropertyOrder, disjoint dependency maps), no Extra key is a struct name;
-    * H_D4: no Extra key is a case variant of a keyword; Extra values are in the form encoding/json writes
-      (`Go.jsonSorted`: object keys ascending at every depth);
+      and `itemsArray`, no duplicate in PropertyOrder, DependencySchemas and DependencyStrings disjoint), no Extra key
+      is a struct name;
+    * H_D4: no Extra key is a case variant of a keyword;
+    * the values of Extra, `enum`, `const`, `examples` are in the form encoding/json writes a decoded `any`
+      (`Go.jsonSorted`: object keys ascending at every depth) — `default` is raw bytes, no condition;
     * the eight integer keywords are inside the int32 window of the `integer` helper (`Go.int32B`);
-    * `$vocabulary`, `default`, `examples`, `enum`, `const`, `dependentRequired` and the two halves of the draft-07
-      `dependencies` union are not populated (the theorem is about the subschema-valued keywords);
     * (`Go.nodeOrd`, only needed for "marshals again to the same JSON") "properties" is written in ascending key
-      order, i.e. PropertyOrder — `json:"-"`, never read back — does not reorder it.
+      order, i.e. PropertyOrder — `json:"-"`, never read back — does not reorder it, and DependencySchemas is
+      enumerated in ascending key order (a representation choice: the list order of a map field is its iteration
+      order, which does not influence what is written).
     Decidable: `by decide` on concrete stores. -/
 def TreeWF (st : Store) (id : NodeId) : Prop := Go.treeAll Go.nodeWF st st.size id = true
 
@@ -234,17 +236,19 @@ instance (st : Store) (id : NodeId) : Decidable (TreeWF st id) :=
 
 /-- `roundtrip_tree`.  For a well-formed tree: whatever MarshalJSON writes for it, UnmarshalJSON reads back — into any
     store `st₂` — as a tree that is equal to the original up to the documented normal forms (`Go.TreeEq`, i.e.
-    `Go.normNode` at every node: every scalar keyword and every Extra entry kept; `required: []` ↦ nil (`Go.normReq`);
-    Extra in ascending key order or nil if empty (`Go.normExtra`); `prefixItems: []` / `allOf: []` and the empty
-    schema maps ↦ nil (omitempty), `anyOf: []` / `oneOf: []` / `itemsArray: []` / `properties: {}` kept; schema maps in
-    ascending key order; "properties" in the order orderedProperties wrote it, PropertyOrder nil; every
-    schema-valued keyword pointing to the rebuilt copy of its subtree — the boolean schemas `true` / `false` come
-    back as `&Schema{}` / `&Schema{Not: &Schema{}}` whatever node was written as `true` / `false`), and marshaling
-    the rebuilt tree gives the same JSON value again.
-    Member kinds covered: all single-schema members, all schema-list members, all schema-map members including
-    "properties" (orderedProperties) and the "items" union, together with the scalar members, `type` (string or
-    list), `required` and Extra.  Not covered (excluded by `TreeWF`): the draft-07 `dependencies` union, the
-    `any`-typed keywords (enum, const, default, examples), `$vocabulary`, `dependentRequired`, nil children. -/
+    `Go.normNode` at every node: every keyword and every Extra entry kept;
+    `required: []` ↦ nil (`Go.normReq`); Extra in ascending key order or nil if empty (`Go.normExtra`);
+    `examples: []`, `prefixItems: []`, `allOf: []` and every empty map ↦ nil (omitempty; `Go.normJL`, `Go.normList`,
+    `Go.normMap`, `Go.normKV`), while `anyOf: []` / `oneOf: []` / `enum: []` / `itemsArray: []` / `properties: {}` are
+    kept; every map in ascending key order; a nil list in DependencyStrings ↦ `[]` (`Go.normDepStrs`);
+    "properties" in the order orderedProperties wrote it (`Go.propEntries`), PropertyOrder nil; every schema-valued
+    keyword pointing to the rebuilt copy of its subtree — the boolean schemas `true` / `false` come back as
+    `&Schema{}` / `&Schema{Not: &Schema{}}` whatever node was written as `true` / `false`),
+    and marshaling the rebuilt tree gives the same JSON value again.
+    Member kinds covered: all of them — the single-schema, schema-list and schema-map members including "properties"
+    (orderedProperties), the "items" union and the draft-07 "dependencies" union; the scalar members, `type` (string
+    or list), `required`, the `any`-typed members (enum, const, default, examples), `$vocabulary`,
+    `dependentRequired` and Extra.  Excluded by `TreeWF`: nil children (a `null` in a schema position). -/
 theorem roundtrip_tree (st : Store) (id : NodeId) (j : Json) (st₂ : Store)
     (hwf : TreeWF st id) (hj : Go.marshal st id = .ok j) :
     ∃ id' st₂', Go.unmarshal j st₂ = .ok (id', st₂') ∧ Go.TreeEq st st₂' (st.size + 2) id id' ∧
@@ -285,14 +289,12 @@ theorem treeEq_marshal {st st' : Store} (f d d' : Nat) (a b : NodeId)
     resolved environment (`VEnv`: infos / anchors / bases per NodeId), so the statement needs `Resolve` of both
     stores and an invariance of validation under a renaming of NodeIds (the `Inv.validateFuel_map` lemmas keep the
     NodeIds fixed); `treeEq_marshal` is the corresponding statement for MarshalJSON;
-  * the draft-07 `dependencies` union (DependencySchemas / DependencyStrings merged into one object);
-  * `any`-typed keywords (enum, const, default, examples): equal only up to the key order of nested objects
-    (`sortJson`), `const: null` and `default` raw bytes need their own statements; Extra values are covered in the form
-    encoding/json writes (`Go.jsonSorted`);
-  * the non-schema map-typed keywords ($vocabulary, dependentRequired): equal up to map order;
-  * nil children (`null` elements of schema lists / maps come back as nil pointers);
+  * nil children (`null` elements of schema lists / maps come back as nil pointers, a nil `*Schema` field that is
+    set explicitly cannot be told from an absent one);
+  * `any`-typed values (enum, const, examples, Extra) are covered in the form encoding/json writes (`Go.jsonSorted`);
+    for other values the statement would be "equal up to the key order of nested objects" (`sortJson` idempotent);
   * PropertyOrder is not written at all (`json:"-"`), it never round-trips except through the order of
-    "properties", which UnmarshalJSON does not read back: see the example below.
+    "properties", which UnmarshalJSON does not read back: see the example below (`Go.nodeOrd`).
 -/
 
 /-! ## table obligations over the generated description of the Schema struct -/
@@ -456,17 +458,17 @@ def exTreeJson : Json :=
         ("x-note", .str "hi")]
 
 set_option maxRecDepth 4000 in
-example : TreeWF exTree 0 := by decide
+/-- `TreeWF` holds of it, by evaluation -/
+theorem exTree_wf : TreeWF exTree 0 := by decide
 
 /-- the hypothesis `hj` is inhabited … -/
 example : Go.marshal exTree 0 = .ok exTreeJson := by rfl
 
-set_option maxRecDepth 4000 in
 /-- … and the theorem applies -/
 example (st₂ : Store) :
     ∃ id' st₂', Go.unmarshal exTreeJson st₂ = .ok (id', st₂') ∧ Go.TreeEq exTree st₂' (exTree.size + 2) 0 id' ∧
       Go.marshal st₂' id' = .ok exTreeJson :=
-  roundtrip_tree exTree 0 exTreeJson st₂ (by decide) (by rfl)
+  roundtrip_tree exTree 0 exTreeJson st₂ exTree_wf (by rfl)
 
 /-- the rebuilt tree, read into the empty store: children before parents, "properties" in ascending key order,
     `false` as `&Schema{Not: &Schema{}}` -/
@@ -492,5 +494,39 @@ example :
       .ok (2, #[{}, {}, { properties := some [("b", 0), ("a", 1)] }]) ∧
     Go.marshal #[{}, {}, { properties := some [("b", 0), ("a", 1)] }] 2 =
       .ok (.obj [("properties", .obj [("a", .bool true), ("b", .bool true)])]) := ⟨by rfl, by rfl, by rfl⟩
+
+/-- a second tree: the draft-07 "dependencies" union (a schema and two string lists, one of them nil), the "items"
+    array form, `$defs` listed out of order, `anyOf: []`, `prefixItems`, the `any`-typed keywords, `$vocabulary` and
+    `dependentRequired` -/
+def exTree2 : Store := #[
+  { dependencySchemas := some [("z", 1)], dependencyStrings := some [("y", some ["a"]), ("x", none)],
+    itemsArray := some [2, 3], defs := some [("q", 1), ("p", 2)], anyOf := some [], prefixItems := some [3],
+    enum := some [.num 1, .obj [("a", .null), ("b", .arr [])]], const := some .null, default := some (.obj [("z", .num 0), ("a", .num 1)]),
+    examples := some [.str "e"], vocabulary := some [("v2", false), ("v1", true)],
+    dependentRequired := some [("k", some ["r"]), ("j", none)] },
+  { type := "null" },
+  { minimum := some 0 },
+  {} ]
+
+set_option maxRecDepth 4000 in
+theorem exTree2_wf : TreeWF exTree2 0 := by decide
+
+example : Go.marshal exTree2 0 = .ok (.obj [
+    ("dependencies", .obj [("x", .arr []), ("y", .arr [.str "a"]), ("z", .obj [("type", .str "null")])]),
+    ("items", .arr [.obj [("minimum", .num 0)], .bool true]),
+    ("enum", .arr [.num 1, .obj [("a", .null), ("b", .arr [])]]),
+    ("anyOf", .arr []),
+    ("$defs", .obj [("p", .obj [("minimum", .num 0)]), ("q", .obj [("type", .str "null")])]),
+    ("$vocabulary", .obj [("v1", .bool true), ("v2", .bool false)]),
+    ("default", .obj [("z", .num 0), ("a", .num 1)]),
+    ("examples", .arr [.str "e"]),
+    ("const", .null),
+    ("prefixItems", .arr [.bool true]),
+    ("dependentRequired", .obj [("j", .null), ("k", .arr [.str "r"])])]) := by rfl
+
+example (st₂ : Store) (j : Json) (hj : Go.marshal exTree2 0 = .ok j) :
+    ∃ id' st₂', Go.unmarshal j st₂ = .ok (id', st₂') ∧ Go.TreeEq exTree2 st₂' (exTree2.size + 2) 0 id' ∧
+      Go.marshal st₂' id' = .ok j :=
+  roundtrip_tree exTree2 0 j st₂ exTree2_wf hj
 
 end JSV.C05
